@@ -212,57 +212,112 @@ func (in *Interp) liveCoros() []string {
 }
 
 // ---------------------------------------------------------------- channels
+//
+// Rendezvous semantics as in the Go runtime: a blocked operation registers a waiter on the
+// channel; the counterpart completes it directly. A select registers one waiter per case,
+// all sharing a group, and only one of them can fire.
+
+type selGroup struct {
+	fired bool
+	index int   // case that fired
+	val   Value // received value
+	ok    bool
+}
+
+type waiter struct {
+	g     *selGroup
+	index int
+	val   Value // value to send (send waiters)
+}
+
+func (in *Interp) liveWaiter(q *[]*waiter) *waiter {
+	for len(*q) > 0 {
+		w := (*q)[0]
+		*q = (*q)[1:]
+		if !w.g.fired {
+			return w
+		}
+	}
+	return nil
+}
+
+func hasLive(q []*waiter) bool {
+	for _, w := range q {
+		if !w.g.fired {
+			return true
+		}
+	}
+	return false
+}
+
+// trySend completes a send without blocking if possible.
+func (in *Interp) trySend(ch *ChanV, v Value) bool {
+	if ch.closed {
+		panic(goPanic{msg: "send on closed channel", site: in.site()})
+	}
+	if w := in.liveWaiter(&ch.recvq); w != nil {
+		w.g.fired, w.g.index, w.g.val, w.g.ok = true, w.index, v, true
+		return true
+	}
+	if len(ch.buf) < ch.cap {
+		ch.buf = append(ch.buf, v)
+		return true
+	}
+	return false
+}
+
+// tryRecv completes a receive without blocking if possible.
+func (in *Interp) tryRecv(ch *ChanV) (Value, bool, bool) {
+	if len(ch.buf) > 0 {
+		v := ch.buf[0]
+		ch.buf = ch.buf[1:]
+		// a blocked sender can now move its value into the buffer
+		if w := in.liveWaiter(&ch.sendw); w != nil {
+			ch.buf = append(ch.buf, w.val)
+			w.g.fired, w.g.index = true, w.index
+		}
+		return v, true, true
+	}
+	if w := in.liveWaiter(&ch.sendw); w != nil {
+		w.g.fired, w.g.index = true, w.index
+		return w.val, true, true
+	}
+	if ch.closed {
+		return in.zero(ch.et), false, true
+	}
+	return nil, false, false
+}
 
 func (in *Interp) chanSend(ch *ChanV, v Value) {
 	if ch == nil {
 		in.yieldUntil(func() bool { return false })
 	}
-	if ch.closed {
-		panic(goPanic{msg: "send on closed channel", site: in.site()})
-	}
-	if ch.cap > 0 {
-		in.yieldUntil(func() bool { return len(ch.buf) < ch.cap || ch.closed })
-		if ch.closed {
-			panic(goPanic{msg: "send on closed channel", site: in.site()})
-		}
-		ch.buf = append(ch.buf, v)
+	if in.trySend(ch, v) {
 		return
 	}
-	// unbuffered: hand over and wait until taken
-	ch.sendq = append(ch.sendq, v)
-	n := len(ch.sendq)
-	_ = n
-	taken := false
-	idx := &taken
-	ch.takers = append(ch.takers, idx)
-	in.yieldUntil(func() bool { return *idx })
+	g := &selGroup{}
+	ch.sendw = append(ch.sendw, &waiter{g: g, val: v})
+	in.yieldUntil(func() bool { return g.fired || ch.closed })
+	if !g.fired {
+		g.fired = true
+		panic(goPanic{msg: "send on closed channel", site: in.site()})
+	}
 }
 
 func (in *Interp) chanRecv(ch *ChanV) (Value, bool) {
 	if ch == nil {
 		in.yieldUntil(func() bool { return false })
 	}
-	in.yieldUntil(func() bool { return len(ch.buf) > 0 || len(ch.sendq) > 0 || ch.closed })
-	return in.chanTake(ch)
-}
-
-func (in *Interp) chanReadyRecv(ch *ChanV) bool {
-	return ch != nil && (len(ch.buf) > 0 || len(ch.sendq) > 0 || ch.closed)
-}
-
-func (in *Interp) chanTake(ch *ChanV) (Value, bool) {
-	if len(ch.buf) > 0 {
-		v := ch.buf[0]
-		ch.buf = ch.buf[1:]
-		return v, true
+	if v, ok, done := in.tryRecv(ch); done {
+		return v, ok
 	}
-	if len(ch.sendq) > 0 {
-		v := ch.sendq[0]
-		ch.sendq = ch.sendq[1:]
-		*ch.takers[0] = true
-		ch.takers = ch.takers[1:]
-		return v, true
+	g := &selGroup{}
+	ch.recvq = append(ch.recvq, &waiter{g: g})
+	in.yieldUntil(func() bool { return g.fired || ch.closed })
+	if g.fired {
+		return g.val, g.ok
 	}
+	g.fired = true
 	return in.zero(ch.et), false
 }
 
@@ -281,26 +336,6 @@ func (in *Interp) selectOp(fr *frame, ins *ssa.Select) Value {
 		}
 		cases = append(cases, c)
 	}
-	readyIdx := func() []int {
-		var r []int
-		for i, c := range cases {
-			if c.ch == nil {
-				continue
-			}
-			if c.send {
-				if c.ch.closed || (c.ch.cap > 0 && len(c.ch.buf) < c.ch.cap) {
-					r = append(r, i)
-				}
-			} else if in.chanReadyRecv(c.ch) {
-				r = append(r, i)
-			}
-		}
-		return r
-	}
-	if ins.Blocking {
-		in.yieldUntil(func() bool { return len(readyIdx()) > 0 })
-	}
-	rd := readyIdx()
 	res := TupleV{st.Const(^uint64(0), 64), st.False}
 	recvPos := map[int]int{}
 	for i, s := range ins.States {
@@ -309,21 +344,78 @@ func (in *Interp) selectOp(fr *frame, ins *ssa.Select) Value {
 			res = append(res, in.zero(s.Chan.Type().Underlying().(*types.Chan).Elem()))
 		}
 	}
-	if len(rd) == 0 {
-		return res
-	}
-	k := rd[in.choice(len(rd), "select")]
-	res[0] = st.Const(uint64(k), 64)
-	c := cases[k]
-	if c.send {
-		if c.ch.closed {
-			panic(goPanic{msg: "send on closed channel", site: in.site()})
+	readyIdx := func() []int {
+		var r []int
+		for i, c := range cases {
+			if c.ch == nil {
+				continue
+			}
+			if c.send {
+				if c.ch.closed || hasLive(c.ch.recvq) || len(c.ch.buf) < c.ch.cap {
+					r = append(r, i)
+				}
+			} else if len(c.ch.buf) > 0 || hasLive(c.ch.sendw) || c.ch.closed {
+				r = append(r, i)
+			}
 		}
-		c.ch.buf = append(c.ch.buf, c.val)
+		return r
+	}
+	fire := func(k int) Value {
+		res[0] = st.Const(uint64(k), 64)
+		c := cases[k]
+		if c.send {
+			if !in.trySend(c.ch, c.val) {
+				panic("select: send case not ready")
+			}
+			return res
+		}
+		v, ok, done := in.tryRecv(c.ch)
+		if !done {
+			panic("select: recv case not ready")
+		}
+		res[1] = st.Bool(ok)
+		res[recvPos[k]] = v
 		return res
 	}
-	v, ok := in.chanTake(c.ch)
-	res[1] = st.Bool(ok)
-	res[recvPos[k]] = v
-	return res
+	if rd := readyIdx(); len(rd) > 0 {
+		return fire(rd[in.choice(len(rd), "select")])
+	}
+	if !ins.Blocking {
+		return res
+	}
+	// block: register on every channel
+	g := &selGroup{}
+	for i, c := range cases {
+		if c.ch == nil {
+			continue
+		}
+		if c.send {
+			c.ch.sendw = append(c.ch.sendw, &waiter{g: g, index: i, val: c.val})
+		} else {
+			c.ch.recvq = append(c.ch.recvq, &waiter{g: g, index: i})
+		}
+	}
+	anyClosed := func() bool {
+		for _, c := range cases {
+			if c.ch != nil && c.ch.closed {
+				return true
+			}
+		}
+		return false
+	}
+	in.yieldUntil(func() bool { return g.fired || anyClosed() })
+	if g.fired {
+		res[0] = st.Const(uint64(g.index), 64)
+		if !cases[g.index].send {
+			res[1] = st.Bool(g.ok)
+			res[recvPos[g.index]] = g.val
+		}
+		return res
+	}
+	g.fired = true // withdraw the registrations
+	rd := readyIdx()
+	if len(rd) == 0 {
+		panic("select: woke without a ready case")
+	}
+	return fire(rd[in.choice(len(rd), "select")])
 }
